@@ -617,6 +617,19 @@ def run_schedule(b, on_capture=None):
                 b.failrun_outcome = 'accepted'
             except Exception as ex:
                 b.failrun_outcome = type(ex).__name__
+        elif o == 'report':
+            # between two runs the user reports the live state in other units: the quantities held by the elements' public
+            # attributes (which are also the last recorded samples) are converted IN PLACE; magnitudes are unchanged.
+            # Positions and speeds are left alone (several monitors compare them exactly across the boundary).
+            import random as _r
+            rr_ = _r.Random(op.get('seed', 0))
+            for el in b.pt.elements:
+                for a_ in ('angular_acceleration', 'torque', 'driving_torque', 'load_torque'):
+                    obj = getattr(el, a_, None)
+                    if obj is not None and hasattr(obj, 'to') and rr_.random() < 0.7:
+                        us_ = [u_ for u_ in SI.units(type(obj).__name__) if u_ != obj.unit]
+                        obj.to(rr_.choice(us_), inplace=True)
+                        b.reported = getattr(b, 'reported', 0) + 1
         elif o == 'remount':
             # the driven part of this (already simulated) powertrain is ALSO mounted on a second motor and assembled there;
             # the first powertrain is fixed at its construction and keeps working on its own element tuple
